@@ -1,5 +1,5 @@
 #!/bin/bash
-# usage: tools/layouttests.sh [<git-rev>]   (default: working tree of /repo)
+# usage: [LT_SRC=<dir>] tools/layouttests.sh [<git-rev>]   (default: working tree of /repo, or of $LT_SRC)
 # Runs the repository's html/layout, html/document and text tests — which cannot initialise in the
 # baseline because text/testdata/cache.fc is missing — in a scratch copy where the cache is generated
 # from the system fonts (fontconfig.ScanAndCache). Prints per-test verdicts to stdout.
@@ -8,7 +8,7 @@ export GOFLAGS=-mod=mod GOPROXY=off GOSUMDB=off GOTOOLCHAIN=local
 rev=${1:-}
 scratch=$(mktemp -d /tmp/layouttests-XXXXXX)
 trap 'rm -rf "$scratch"' EXIT
-if [ -n "$rev" ]; then git -C /repo archive "$rev" | tar -x -C "$scratch"; else rsync -a --exclude .git /repo/ "$scratch/"; fi
+if [ -n "$rev" ]; then git -C /repo archive "$rev" | tar -x -C "$scratch"; else rsync -a --exclude .git "${LT_SRC:-/repo}/" "$scratch/"; fi
 cd "$scratch"
 mkdir -p text/testdata
 cat > mkcache_test.go <<'GO'
